@@ -100,7 +100,7 @@ PROPS = {
                 'Mechanism level: a frame is delivered only if its CRC matches the stored one at the parse cursor (O-C08-step vs frame_step), undecodable/over-long frames quarantine the block, '
                 'any bad frame abandons the entry being assembled (O-C12-deliver vs rec_step), entry and batch structure re-validated (O-de-spec vs parse_entry, O-C12-validate), '
                 'queue invariant (strictly increasing positions) preserved by every replay operation.',
-        kani_quick=['K-hdr'], kani_thorough=['E-dmg'],
+        kani_quick=['K-hdr', 'E-dmg'], kani_thorough=[],
         trusted=[FS, 'crc32 uninterpreted ("genuine" = assembled only from CRC-valid frames)'],
         not_decided=['relating a CRC-valid frame to the history that wrote it'],
     ),
@@ -135,7 +135,7 @@ PROPS = {
         explain='One call = one entry carrying the whole serialized batch (O-C12-one); an entry is delivered only from an intact First..Last run (O-C12-deliver vs rec_step); '
                 'the batch is validated before any record of it is applied (O-C12-validate). '
                 'Composition L-C12 (spec/vtorn.rs, lemma_torn_tail): for every stream offset, every sequence of entries of any sizes and EVERY cut point (byte granularity), a WAL that reads as zeros behind the cut is recovered as a PREFIX of the entries written, each whole, followed by the end of the log (after at most one Corruption) -- no batch with a hole or a missing tail, nothing from behind the cut; hypothesis: the checksum tells a frame payload from its zero-tailed truncations (the "up to a CRC-32 collision" of the property, shown satisfiable); at the logical level (lemma_torn_tail_replay) open then computes the replay of a prefix of the entries written.',
-        kani_quick=[], kani_thorough=['E-dmg', 'E-hist'],
+        kani_quick=['E-dmg'], kani_thorough=['E-hist'],
         trusted=[FS, 'MultiRecord::{serialize,serialize_with_pos} are VERIFIED over the assumed contracts of bytes::Buf (R10: a cursor over a byte string; chunk() a non-empty prefix while bytes remain) and of (start..).zip(it) (R19); the payload iterator is assumed to obey vstd\'s iterator laws and to be finite (iter_ok, a precondition of append_records)'], not_decided=['in-place damage other than a zero tail (bit flips, garbage): decided per frame by O-C08-step / O-C12-deliver, not composed over histories', 'that a crashed file system presents a zero tail (sequential writes into pre-zeroed files): assumption about the FS, see C02'],
     ),
     'C13': dict(
